@@ -22,9 +22,10 @@ RULE = (
     "case runs under the RL scheduler (no folder: labels and table only, incl. the bootstrap sampler it appends). Non-trivial = a class present in the history is no longer in the scheduler at checkpoint time; "
     "distinct by operation sequence."
     ' Line-ups include user classes derived from a built-in (next to the parent), a class with a `name` attribute naming another class, a non-ASCII class name; operations include replacements before the first batch, retiring the highest id then adding a new class, extending a user scheduler in place and announcing it again; folders with a stale temporary params file; sampler objects shared with a second calibrator of the reverse order; str and Path folder arguments.'
+    ' Every third folder case (two parameters; the line-up often reversed before the first batch) is drawn with the real plot_sampling / plot_convergence / plot_sampling_batch_nums under the Agg backend and every legend is read back: the text next to a handle must be the class name of the id seaborn itself labelled that handle with.'
 )
 ASSUMPTIONS = ["sampler classes are identified by their class name, as the library does"]
-REQUIRED_COUNTERS = {"user_subclasses_of_a_built_in": 8, "user_classes_with_a_name_attribute": 2, "folder_holds_a_stale_temporary_params_file": 8, "sampler_objects_shared_with_a_calibrator_of_another_order": 2, "replacements_before_the_first_batch": 6, "highest_id_retired_then_new_class_added": 4, "scheduler_extended_in_place_and_announced_again": 4, "folder_holds_no_batch_checkpoint_of_another_lineup": 5, "failed_batches_then_continued": 10, "rl_scheduler_cases": 5, "moved_checkpoints": 10, "folder_reused_by_other_run": 20, "tables_checked": 80, "rows_attributed": 150, "helper_calls": 40, "restores": 40, "dropped_class_checkpoints": 10,
+REQUIRED_COUNTERS = {"lineups_reversed_before_the_first_batch": 2, "runs_drawn_whose_ids_first_appear_out_of_order": 2, "runs_drawn_with_the_plotting_utilities": 5, "plot_legend_entries_judged": 20, "user_subclasses_of_a_built_in": 8, "user_classes_with_a_name_attribute": 2, "folder_holds_a_stale_temporary_params_file": 8, "sampler_objects_shared_with_a_calibrator_of_another_order": 2, "replacements_before_the_first_batch": 6, "highest_id_retired_then_new_class_added": 4, "scheduler_extended_in_place_and_announced_again": 4, "folder_holds_no_batch_checkpoint_of_another_lineup": 5, "failed_batches_then_continued": 10, "rl_scheduler_cases": 5, "moved_checkpoints": 10, "folder_reused_by_other_run": 20, "tables_checked": 80, "rows_attributed": 150, "helper_calls": 40, "restores": 40, "dropped_class_checkpoints": 10,
                      "user_defined_classes": 5, "set_scheduler_ops": 5, "old_format_fixture": 1}
 SHARDS = {"quick": 16, "thorough": 16}
 SHARD_WATCHDOG = {"quick": 1500, "thorough": 10800}
@@ -33,6 +34,65 @@ SHARD_WATCHDOG = {"quick": 1500, "thorough": 10800}
 def gen_cases(tier, seed):
     n = 96 if tier == "quick" else 20000
     return [{"i": i, "seed": seed} for i in range(n)] + [{"i": -1, "seed": seed, "fixture": True}]
+
+
+def check_plot_legends(PR, folder, table, batch_nums, cnt):
+    """Draw the saved run with the plotting utilities (Agg) and read the legends back: the text next to a legend handle must be
+    the class name of the id that handle stands for.  Which id a handle stands for is read from seaborn's own label of the
+    handle (the id as a string), not from anything the library computes."""
+    import matplotlib
+
+    matplotlib.use("Agg")
+    import matplotlib.pyplot as plt
+
+    inv = {int(v): k for k, v in table.items()}
+    bad = []
+    calls = [("plot_sampling", lambda: PR.plot_sampling(folder)), ("plot_convergence", lambda: PR.plot_convergence(folder)),
+             (f"plot_sampling_batch_nums({batch_nums})", lambda: PR.plot_sampling_batch_nums(folder, batch_nums))]
+    for name, fn in calls:
+        plt.close("all")
+        try:
+            import warnings
+
+            with warnings.catch_warnings():
+                warnings.simplefilter("ignore")
+                fn()
+            fig = plt.gcf()
+            legends = [ax.get_legend() for ax in fig.axes if ax.get_legend() is not None] + list(fig.legends)
+            own = {}     # handle artist -> seaborn's own label
+            for ax in fig.axes:
+                hs, ls = ax.get_legend_handles_labels()
+                for h_, l_ in zip(hs, ls):
+                    own[id(h_)] = l_
+            judged = 0
+            for lg in legends:
+                hs = getattr(lg, "legend_handles", None) or getattr(lg, "legendHandles", [])
+                texts = [t.get_text() for t in lg.get_texts()]
+                # the legend was built from the axes' handles in order: pair by position with the handles the axes report
+                src_h, src_l = [], []
+                for ax in fig.axes:
+                    a_, b_ = ax.get_legend_handles_labels()
+                    if len(a_) >= len(src_h):
+                        src_h, src_l = a_, b_
+                for k_, txt in enumerate(texts):
+                    if k_ >= len(src_l):
+                        break
+                    lab = src_l[k_]
+                    try:
+                        want = inv[int(float(lab))]
+                    except (ValueError, KeyError):
+                        continue      # the "min loss" line etc.
+                    judged += 1
+                    if txt != want:
+                        bad.append(f"{name}: the legend entry drawn for sampler id {lab} reads '{txt}', that id belongs to {want} (table {table})")
+                        break
+            if judged:
+                cnt("plot_legend_entries_judged", judged)
+        except Exception as e:  # noqa: BLE001
+            bad.append(f"{name} raised {type(e).__name__}: {str(e)[:140]}")
+        finally:
+            plt.close("all")
+    return bad
 
 
 def run_case(desc, ctx):
@@ -67,7 +127,7 @@ def run_case(desc, ctx):
 
     rng = rng_for(desc["seed"], 18, desc["i"])
     rl = desc["i"] % 8 == 5    # RL scheduler (it appends its own bootstrap Halton sampler when none is supplied); cannot be checkpointed, so no folder
-    cfg = CG.gen_config(rng, kinds=G.CHEAP, n_samplers=int(rng.integers(1, 4)), max_bs=2, loss_kinds=["minkowski"], max_params=2, scheduler="rl" if rl else None)
+    cfg = CG.gen_config(rng, kinds=G.CHEAP, n_samplers=int(rng.integers(1, 4)), max_bs=2, loss_kinds=["minkowski"], max_params=2, params=(2 if desc["i"] % 3 == 1 else None), scheduler="rl" if rl else None)
     if rl:
         seen_h = False
         for d_ in cfg["lineup"]:
@@ -170,6 +230,15 @@ def run_case(desc, ctx):
             cnt("replacements_before_the_first_batch")
         if rl and k > 0 and rng.random() < 0.2:
             op = "failed_batch"
+        if k == 0 and not rl and desc["i"] % 3 == 1 and len({type(s_).__name__ for s_ in cal.scheduler.samplers}) >= 2 and all(type(s_).__name__ != "BestBatchSampler" for s_ in cal.scheduler.samplers) and rng.random() < 0.7:   # (BestBatch needs its place in the order)
+            # the line-up is reversed before the first batch: the first rows of the history then carry the HIGHEST id
+            rev = list(reversed(cal.scheduler.samplers))
+            ops.append(["set_samplers", [type(s_).__name__ for s_ in rev]])
+            with quiet():
+                cal.set_samplers(rev)
+            check_table("after the line-up was reversed before the first batch")
+            cnt("lineups_reversed_before_the_first_batch")
+            op = "calibrate"
         if op == "failed_batch":
             # a batch fails after its sampler was designated (the model raises) and the user simply goes on: labels and samples stay in step
             from vlib import models as MM
@@ -232,6 +301,16 @@ def run_case(desc, ctx):
                     out["violations"].append({"msg": f"plot helper labels row {j} (id {ids[j]}) as {names[j]}, it was produced by {want[j]}" + (f" [classes no longer scheduled: {sorted(dropped)}]" if dropped else ""), "witness": wit})
             except Exception as e:  # noqa: BLE001
                 out["violations"].append({"msg": f"plot helper cannot label the checkpoint the calibrator wrote: {type(e).__name__}: {str(e)[:140]}", "witness": wit})
+            if desc["i"] % 3 == 1 and cfg["P"] >= 2 and len(set(ids)) >= 2 and not wit.get("legends_checked"):     # (pair plots need two parameters)
+                # the plotting utilities themselves: every legend entry names the class its colour stands for
+                wit["legends_checked"] = True
+                some = sorted({int(b_) for b_ in cal.batch_num_samp})
+                pick = [some[j_] for j_ in sorted(rng.choice(len(some), size=int(rng.integers(1, len(some) + 1)), replace=False))]
+                for msg in check_plot_legends(PR, folder, dict(cal.samplers_id_table), pick, cnt)[:2]:
+                    out["violations"].append({"msg": msg, "witness": wit})
+                cnt("runs_drawn_with_the_plotting_utilities")
+                if ids != sorted(ids) or [i_ for k_, i_ in enumerate(ids) if i_ not in ids[:k_]] != sorted(set(ids)):
+                    cnt("runs_drawn_whose_ids_first_appear_out_of_order")
             if rng.random() < 0.3:
                 # the checkpoint is archived somewhere else and the original folder is gone: the copy alone still explains its labels
                 import shutil
